@@ -1075,6 +1075,26 @@ def c11_oracle(case, r):
     for sig, text in c03_oracle(case, fake):
         if sig in ("fixture-never-torn-down", "teardown-suite-never-executed", "fixture-torn-down-before-consumer-finished"):
             hits.append((sig, text))
+    # ... and run to their END: a teardown (fixture teardown, teardown_suite, teardown_test) that has begun is only left early by
+    # an exception its own code raises (the code after a logging call is what releases the resource)
+    open_td = {}
+    for a in trace:
+        th, op = a[0], a[1]
+        if op == "fx_teardown_begin":
+            open_td[th] = ("teardown of fixture %s" % a[2], False)
+        elif op == "hook_begin" and a[2] in ("teardown_suite", "teardown_test"):
+            open_td[th] = ("%s of %s" % (a[2], a[3]), False)
+        elif op in ("fx_teardown_end",) or (op == "hook_end" and a[2] in ("teardown_suite", "teardown_test")):
+            open_td.pop(th, None)
+        elif op == "raise" and th in open_td:
+            open_td[th] = (open_td[th][0], True)
+        elif op in ("take", "finish") and th in open_td:
+            what, own = open_td.pop(th)
+            if not own:
+                hits.append(("teardown-cut-short-after-backend-failure", "the %s began but did not run to its end although nothing in it raised" % what))
+    for th, (what, own) in open_td.items():
+        if not own:
+            hits.append(("teardown-cut-short-after-backend-failure", "the %s began but did not run to its end although nothing in it raised" % what))
     seen, out = set(), []
     for sig, text in hits:
         if sig not in seen:
